@@ -587,7 +587,10 @@ type_id deferred_id_fn() {
 }
 template<int... I>
 void fill_deferred_fns(type_id* out, std::integer_sequence<int, I...>) {
-    ((out[I] = reinterpret_cast<type_id>(&deferred_id_fn<I>)), ...);
+    // (a braced list, not a fold expression: clang limits the nesting of folds to 256 operands)
+    const type_id fns[] = {reinterpret_cast<type_id>(&deferred_id_fn<I>)...};
+    for (std::size_t k = 0; k < sizeof...(I); ++k)
+        out[k] = fns[k];
 }
 
 // ---------------------------------------------------------------------------
